@@ -41,10 +41,17 @@ def geometry(rng, kind=None, want=None):
         table = [t for t in table if t[0] in want]
     return rng.choice(table)
 
-def build_image(rng, geo, populate=1, free_left=None, dirty_free=0, second_partition=False, full_root=False, big_dir=False, exact_dir=False, ensure_big=False):
+def build_image(rng, geo, populate=1, free_left=None, dirty_free=0, second_partition=False, full_root=False, big_dir=False, exact_dir=False, ensure_big=False, blank_label=None):
     """returns (Image, meta) ; meta: tree description for the generators"""
     name, kw = geo
     img = fatimg.Image()
+    if blank_label is None:
+        blank_label = rng.chance(1, 4)
+    kw = dict(kw)
+    if blank_label:
+        kw["label"] = b" " * 11       # the label then lives only in a root-directory entry (or nowhere)
+    if kw.get("fat32") and rng.chance(1, 2):
+        kw["high_nibble"] = rng.choice([5, 15, 8])
     v = fatimg.Vol(dirty_free=dirty_free, **kw)
     meta = dict(geo=name, files={}, dirs={"": v.root}, fat32=kw["fat32"], spc=kw.get("spc", 1), N=v.N, vol=v)
     if populate:
